@@ -21,6 +21,7 @@ EXPLANATION = (
     ' (R8, round 3) data multiplying solver variables are float()-converted; error variables are integer (and errors rounded) only when the flow values are integral too; the error bound of the cyclic model covers k products; w_max is not truncated; validity check on Python numbers.'
     ' (R8, hunt 4) constraint edges are trusted under length coverage only with positive length; the superset sum of the error bound is taken on Python numbers.'
     ' (R8, hunt 5) the sums of edge lengths behind the length-coverage threshold, the position / path-length bounds and the greedy check are computed on Python numbers; given weights up to 1e-9 are replaced by 0 before they become matrix coefficients; the w_max provider accepts int(self.k).'
+    ' (R8, seeds 5) every store of the given weights is the parameter, a value-preserving conversion or the constant-threshold normalisation - no other replacement.'
 )
 DECIDED = ["two-sided error rows and scaled objective present and complete", "reported objective recomputed with the same scaling as the model's objective",
            "product linking exact", "numeric type and weight bound provider"]
